@@ -4030,13 +4030,14 @@ impl Collection {
                     // order is preserved, matching the other branches.
                     let mut rt: UniqueVec<DocumentId> =
                         UniqueVec::with_capacity(Self::reserve_hint(limit));
+                    // The scan walks keys, not ids: stopping after `limit` hits
+                    // would keep the first `limit` ids in *key* order, which the
+                    // caller's ascending-id trim then mistakes for a page of the
+                    // full result. Collect every match, like `And`/`Or`/`Not`.
                     index.try_range_query_ids(filter, order.is_descending(), |ids| {
                         for id in ids {
                             if candidates.is_none_or(|s| s.contains(id)) {
                                 rt.push(*id);
-                                if limit > 0 && rt.len() >= limit {
-                                    return false;
-                                }
                             }
                         }
                         true
